@@ -135,10 +135,16 @@ def r111(ctx, R):
                     same = m is not None and '_'.join(
                         m.group(1).strip('.').split('.')) == k.arg
                     want = WRITE_TABLE.get((e.table, k.arg))
-                    if m is None and want is None:
+                    if m is None and want is None and not re.search(
+                            r'\.[A-Za-z_]', got):
                         # a bare value for a column without a reviewed
                         # source: nothing contradicts the column name
                         ok = True
+                    elif m is None and want is None:
+                        # computed from attributes of the object, but not
+                        # the plain same-named attribute (x.a or default,
+                        # x.a + 1 ...): what is stored is not what was given
+                        ok = False
                     else:
                         # parameter positions are not part of the reviewed
                         # source (a private helper's parameters may be
@@ -373,6 +379,17 @@ def r114(ctx, R):
                 d.value, ast.Call) and src(d.value.func) == 'getattr' and \
             src(d.value.args[1]) == src(gen.target) and src(
                 d.value.args[0]) == ser.params[0]
+    # (the engine presents a comprehension over a literal table as the
+    # display it builds)
+    disp = [d for d in own_nodes(ser.node) if isinstance(d, ast.Dict)
+            and d.keys and len(d.keys) == len(outf)]
+    if not comp and len(disp) == 1:
+        d = disp[0]
+        okc = all(isinstance(k, ast.Constant) and isinstance(
+            v, ast.Attribute) and v.attr == k.value and src(
+                v.value) == ser.params[0]
+            for k, v in zip(d.keys, d.values)) and sorted(
+                k.value for k in d.keys) == sorted(outf)
     R.ob('R11.4', 'inventory:serialiser-is-identity', okc,
          'each emitted field is the same-named attribute of the inventory',
          [src(c)[:80] for c in comp], func=ser)
@@ -762,7 +779,66 @@ def r117(ctx, R):
     C.reuse_obligations(ctx, R, c01.r14, 'R11.7')
 
 
+def r1110(ctx, R):
+    """A name filter given as an empty collection selects nothing, not
+    everything: PUT .../traits with an empty list resolves the body's names
+    through Trait.get_all(filters={'name_in': []}) and stores what comes
+    back.  In the filtered trait query every IN (...) clause fed from the
+    filters is applied whenever its key is present - the only tests on the
+    way to it are tests of presence, never of the value's truth."""
+    prog = ctx.prog
+    f = prog.func('placement.objects.trait:_get_all_filtered_from_db')
+    filt = (f.params + [None, None])[1]
+    deps = C.Deps(f)
+    n = 0
+    for c in own_nodes(f.node):
+        if not (isinstance(c, ast.Call) and isinstance(
+                c.func, ast.Attribute) and c.func.attr == 'in_' and c.args):
+            continue
+        keys = set()
+
+        def visit(x, keys=keys):
+            if isinstance(x, ast.Subscript) and isinstance(
+                    x.value, ast.Name) and x.value.id == filt and \
+                    isinstance(x.slice, ast.Constant):
+                keys.add(x.slice.value)
+            if isinstance(x, ast.Call) and isinstance(
+                    x.func, ast.Attribute) and x.func.attr in (
+                        'get', 'pop') and isinstance(
+                            x.func.value, ast.Name) and \
+                    x.func.value.id == filt and x.args and isinstance(
+                        x.args[0], ast.Constant):
+                keys.add(x.args[0].value)
+            return False
+        deps.reaches(c.args[0], visit)
+        if not keys:
+            continue
+        n += 1
+        st = C.stmt_of(c)
+        bad = []
+        for e, pol in C.conds(st, f.node, implicit=True):
+            e2 = C.inline_locals(f, e)
+            pres = isinstance(e2, ast.Compare) and len(e2.ops) == 1 and \
+                isinstance(e2.ops[0], (ast.In, ast.NotIn)) and isinstance(
+                    e2.left, ast.Constant) and src(
+                        e2.comparators[0]) == filt
+            nonnull = isinstance(e2, ast.Compare) and len(
+                e2.ops) == 1 and isinstance(
+                    e2.ops[0], (ast.Is, ast.IsNot)) and src(
+                        e2.comparators[0]) == 'None'
+            if not (pres or nonnull):
+                bad.append(('' if pol else 'not ') + src(e))
+        R.ob('R11.10', '%s:%s-applied-when-present' % (
+            f.qbase.split(':')[1], '/'.join(sorted(keys))), not bad,
+            'the IN clause is applied whenever the filter key is present '
+            '(an empty collection then matches no row); nothing on the way '
+            'tests the truth of the value', bad or 'presence tests only',
+            func=f, node=st)
+    R.count('R11.10', n, 1)
+
+
 def run(ctx, R):
+    r1110(ctx, R)
     r111(ctx, R)
     r112(ctx, R)
     r113(ctx, R)
